@@ -114,7 +114,7 @@ func unhx(s string) []byte {
 	}
 	b, err := hex.DecodeString(s)
 	if err != nil {
-		panic("bad hex in case line: " + s)
+		panic(badCase("bad hex in case line: " + s))
 	}
 	buf := make([]byte, len(b)+48)
 	for i := range buf {
@@ -127,7 +127,7 @@ func unhx(s string) []byte {
 func atoi(s string) int {
 	n, err := strconv.Atoi(s)
 	if err != nil {
-		panic("bad int in case line: " + s)
+		panic(badCase("bad int in case line: " + s))
 	}
 	return n
 }
